@@ -3,7 +3,7 @@ CONSTANTS
   Segmented = FALSE
   Families = {"api", "cl", "chunk"}
   CodeMode = "few"
-  HdrK = 5
+  HdrK = 4
   MaxHdrs = 3
   MaxBody = 3
   BodyMode = "len"
